@@ -13,7 +13,7 @@ From Coq Require Import List Arith.
 From Coq Require Import Permutation.
 From GT Require Import Base.GoStr Md.Parser Tree.Tree Spec.Spec Spec.Spelling Conc.Splitter Proofs.SpelledTop
   Proofs.SplitSchedule Proofs.MassiveFront.
-From GT Require Import Conc.Pipeline Conc.Instance Conc.InstanceCheck Proofs.PipeBlocks Proofs.PipeNoLeak.
+From GT Require Import Conc.Pipeline Conc.Instance Conc.InstanceCheck Proofs.PipeBlocks Proofs.PipeNoLeak Proofs.PipeComplete.
 Import ListNotations.
 
 (* whatever the schedule: the log of the locking sink is a concatenation of complete blocks of
@@ -47,6 +47,45 @@ Theorem C10_items_unique : forall p s, reach p s -> NoDup (p_items p) ->
   exists done, NoDup (st_pending s ++ held s ++ done) /\ incl (st_pending s ++ held s ++ done) (p_items p).
 Proof. exact items_unique. Qed.
 Print Assumptions C10_items_unique.
+
+(* NOTHING IS LOST on a nil return, whatever the schedule: the text written is exactly one
+   complete block per item (root), in some order; the call has returned nil only if no item
+   fails at any stage and the source did not fail; and every goroutine has already finished *)
+Theorem C10_nil_return_complete : forall p s d,
+  reach p s -> st_main s = Some None -> sinkd p = Some d -> d_lock d = true ->
+  exists done, st_log s = flat_map (block d) done /\ Permutation done (p_items p).
+Proof. exact nil_return_log_complete. Qed.
+Print Assumptions C10_nil_return_complete.
+
+Theorem C10_nil_return_nothing_in_flight : forall p s, reach p s -> st_main s = Some None ->
+  st_pending s = [] /\ held s = [] /\ errs s = [] /\ st_first_err s = None.
+Proof. exact nil_return_all_items_through. Qed.
+Print Assumptions C10_nil_return_nothing_in_flight.
+
+Theorem C10_nil_return_no_failure : forall p s, reach p s -> st_main s = Some None ->
+  forall n d i, nth_error (p_stages p) n = Some d -> In i (p_items p) -> d_fails d i = false.
+Proof. exact nil_return_no_failure. Qed.
+Print Assumptions C10_nil_return_no_failure.
+
+(* error iff error: a returned error is justified by the scenario (the source's error, an item
+   that fails at that stage, or the caller's cancellation), and a faultless uncancellable
+   scenario can only return nil *)
+Theorem C10_error_return_exact : forall p s e, reach p s -> st_main s = Some (Some e) ->
+  match e with
+  | ESrc => p_src_err p = true
+  | EStage n i => fails_at p n i
+  | ECtx => st_ucancel s = true /\ p_user_may_cancel p = true
+  end.
+Proof. exact error_return_exact. Qed.
+Print Assumptions C10_error_return_exact.
+
+Theorem C10_faultless_returns_nil : forall p s r,
+  reach p s -> st_main s = Some r ->
+  p_src_err p = false -> p_user_may_cancel p = false ->
+  (forall n d i, nth_error (p_stages p) n = Some d -> In i (p_items p) -> d_fails d i = false) ->
+  r = None.
+Proof. exact faultless_returns_nil. Qed.
+Print Assumptions C10_faultless_returns_nil.
 
 (* the splitter loses, adds and reorders nothing: its blocks concatenate to the rows *)
 Theorem C10_split_concat : forall rows, concat (split_rows rows) = rows.
